@@ -2,7 +2,10 @@
 
 Model: Model/Assemble.v (stream_step, queue_step over Prim/PyList.v and Model/AssembleIter.v).  Correspondence: H-stream
 (tools/props/stream_common.py): the extracted loops, given the real parser's per-line outcomes, against the six real
-front-ends.  Oracle: Spec/AssembleSpec.v spec_deliveries (extracted) on the harness's own description of the lines."""
+front-ends.  Oracle: Spec/AssembleSpec.v spec_deliveries (extracted) on the harness's own description of the lines.
+Backpressure extension: wherever NMEAQueue is a front-end the same lines also go into a bounded NMEAQueue(maxsize=k) with
+non-blocking puts (stream_common.py, "bounded NMEAQueue"): correspondence with the extracted queue_step_b, oracle from
+Proofs/AssembleBounded.v (what comes out is what the unbounded reference delivers at the accepted lines)."""
 import os
 import sys
 
@@ -16,8 +19,9 @@ RULE = ('line sequences built by the harness from K messages (1..9 fragments, ra
         'lines, foreign NMEA lines and malformed lines, plus the boundary sequences of DESIGN.md section 5; every sequence goes '
         'through IterMessages, ByteStream, BinaryIOStream, FileReaderStream, SocketStream (scripted recv) and NMEAQueue, with and '
         'without a TagBlockQueue; a case = (front-end, tbq, terminator, line list); distinct = distinct such tuples; thorough tier '
-        'adds all arrival orders of small message sets')
-ASSUMPTIONS = ['the model receives the per-line outcome of the REAL NMEASentenceFactory.produce / TagBlockQueue.put_sentence '
+        'adds all arrival orders of small message sets' + sc.RULE_BOUNDED)
+ASSUMPTIONS = [sc.ASSUMPTION_BOUNDED,
+               'the model receives the per-line outcome of the REAL NMEASentenceFactory.produce / TagBlockQueue.put_sentence '
                '(the byte-level parser and the tag block queue are separate layers); the theorems quantify over these outcomes',
                'fragment count 0 / non-positive fragment numbers (IndexError in both loops) belong to C05 and are outside the '
                'schedules of C03; the model shows them, the correspondence check covers them']
